@@ -217,6 +217,10 @@ def slice_base(e):
         return e
 
 
+# accessors of the first / last element of a slice, Vec or VecDeque: Some(..) exactly when the container is not empty
+END_ACCESSORS = ("first", "last", "split_first", "split_last", "first_mut", "last_mut", "front", "back")
+
+
 def emptiness(e, c):
     """(subject, is_empty) if the decision (e, c) tests a container for emptiness in any of its normal forms:
     x.is_empty(), x.len() == 0, x.len() != 0, x.len() > 0, x.len() < 1, x.len() >= 1 (either operand order); else None"""
@@ -228,6 +232,9 @@ def emptiness(e, c):
         e = e[2]
     if e[0] in ("pure", "call") and short(e[1]) == "is_empty" and len(e[2]) == 1:
         return (e[2][0], t)
+    if e[0] == "discr" and e[1][0] in ("pure", "call") and short(e[1][1]) in END_ACCESSORS and len(e[1][2]) == 1 and c in (("eq", 0), ("eq", 1), ("notin", (0,))):
+        # `match x.first() { None => .., Some(b) => .. }`: Some exactly when x is not empty
+        return (e[1][2][0], c == ("eq", 0))
     if e[0] == "binop" and e[1] in ("Eq", "Ne", "Gt", "Lt", "Ge", "Le"):
         op, a, b = e[1], strip_casts(e[2]), strip_casts(e[3])
         if a[0] == "int" and b[0] != "int":
